@@ -144,6 +144,14 @@ func startsOf(recs []vh.Record, hook string) []vh.Record {
 	return out
 }
 
+func init() {
+	// the operator itself may have been started with these variables set (from a wrapper, or as a hook of another
+	// operator): every execution gets its own values all the same
+	for _, n := range vh.EnvNames {
+		os.Setenv(n, "/nonexistent/inherited-"+n)
+	}
+}
+
 func runCase(c Case) (ev.Info, error) {
 	info := ev.Info{}
 	fc := kit.NewCluster("default")
@@ -358,7 +366,7 @@ func runCase(c Case) (ev.Info, error) {
 	return info, nil
 }
 
-const rule = "the real operator (VerifAssemble + Start) on a fake cluster with two scripted hooks in different queues; 1-5 executions triggered by injected schedule ticks, each with a generated script: exit code {0,1,2,127,SIGKILL} x each of metrics/patch/admission/conversion file {untouched, valid, truncated, wrong JSON type, deleted; metrics and patch also: a valid document followed by a stray closing bracket; patch also: a well-formed operation the API refuses}, optionally parked on a gate while the other hook runs; oracle from the hook's own log and the operator: cwd, six environment variables inside the temp dir, empty output files at start, unique file names across all executions, binding-context file == contexts of the task, outcome table (non-zero exit or malformed output -> failed and retried, nothing applied after a non-zero exit; exit 0 with valid outputs -> metric visible in the hook metric storage and patch applied to the cluster), temp directory empty after every execution. Non-trivial: an execution with a valid non-empty output file, or two overlapping executions."
+const rule = "the real operator (VerifAssemble + Start) on a fake cluster with two scripted hooks in different queues; 1-5 executions triggered by injected schedule ticks, each with a generated script: exit code {0,1,2,127,SIGKILL} x each of metrics/patch/admission/conversion file {untouched, valid, truncated, wrong JSON type, deleted; metrics and patch also: a valid document followed by a stray closing bracket; patch also: a well-formed operation the API refuses}, optionally parked on a gate while the other hook runs; the operator process itself has the six variables set to foreign values; oracle from the hook's own log and the operator: cwd, six environment variables inside the temp dir, empty output files at start, unique file names across all executions, binding-context file == contexts of the task, outcome table (non-zero exit or malformed output -> failed and retried, nothing applied after a non-zero exit; exit 0 with valid outputs -> metric visible in the hook metric storage and patch applied to the cluster), temp directory empty after every execution. Non-trivial: an execution with a valid non-empty output file, or two overlapping executions."
 
 func TestExec(t *testing.T) {
 	ev.Main(t, ev.Spec[Case]{Property: "C12", Part: "exec", Rule: rule, Gen: gen, Run: runCase, Journal: true})
